@@ -1081,9 +1081,14 @@ def execute_one_plan(
                 since=plan.since,
                 until=plan.until,
             ) as scanner:
+                seen = set()
                 for event in matcher(txn, scanner, plan.query, plan.stats):
                     if count == limit:
                         break
+                    # an event can sit under several of the requested values (two tags, two matches)
+                    if event.id in seen:
+                        continue
+                    seen.add(event.id)
                     on_event(event)
                     count += 1
         plan.stats["count"] = count
